@@ -374,8 +374,8 @@ def shared_callback_family(W):
     res = []
     for st in ("memory", "redis"):
         for first in ("f1", "f2"):
-            f1 = dict(F1, store=st, override=True, prefix="one", sharedCallback=True)
-            f2 = dict(F2, store=st, override=True, prefix="two", idp="B", sharedCallback=True)
+            f1 = dict(F1, store=st, override=True, prefix="", sharedCallback=True)
+            f2 = dict(F2, store=st, override=True, prefix="", sharedCallback=True)
             other = "f2" if first == "f1" else "f1"
             steps = [browse("b1", first, 1), app("b1", first), browse("b2", other, 2), app("b2", other)]
             res.append({"id": "sharedcallback/%s/%s-first" % (st, first), "cfg": {"filters": [f1, f2]}, "steps": steps, "tags": ["sharedCallback"]})
